@@ -142,7 +142,7 @@ def cases(tier, seed):
     q = tier == "quick"
     n = 0
     kinds = ["runs", "flatrows", "stripes", "zero", "max", "vrepeat", "random", "altnib", "corners"]
-    reps = 1 if q else 5
+    reps = 1 if q else 25
     for rep in range(reps):
         for kind in kinds:
             for preset in PRESETS:
